@@ -227,13 +227,17 @@ def render(cfg: dict, roots: list[Root], name: str = "disk.qcow2") -> Image:
             continue
         if extl2:
             put_poison(datafile, p, cs, 0x5C5C)
-            for sc in range(32):
+            run0 = None
+            for sc in range(33):
                 sa, sb = a + sc * sub, min(a + (sc + 1) * sub, b)
-                if sa >= b:
-                    break
-                if _sc_state(L, sa, sb, cfg) == "alloc":
-                    datafile.punch(p + sc * sub * 512, (sb - sa) * 512)
-                    put_view(datafile, p + sc * sub * 512, roots[ri].view, sa, sb)
+                is_alloc = sc < 32 and sa < b and _sc_state(L, sa, sb, cfg) == "alloc"
+                if is_alloc and run0 is None:
+                    run0 = sa
+                elif not is_alloc and run0 is not None:
+                    e_ = min(sa, b)
+                    datafile.punch(p + (run0 - a) * 512, (e_ - run0) * 512)
+                    put_view(datafile, p + (run0 - a) * 512, roots[ri].view, run0, e_)
+                    run0 = None
         else:
             put_view(datafile, p, roots[ri].view, a, b)
             if b - a < unit:
